@@ -478,7 +478,9 @@ class domain(config_domain):
     def pkg_licenses(self, data, debug=False):
         if debug:
             return tuple(data)
-        return tuple((x[0], stable_unique(x[1])) for x in data)
+        # an incremental stream: dropping repeated tokens would lose a license
+        # (or group) that is re-added after having been negated.
+        return tuple((x[0], tuple(x[1])) for x in data)
 
     @load_property("package.use", parse_func=package_use_splitter)
     def pkg_use(self, data, debug=False):
